@@ -26,7 +26,9 @@ CovKeys == {"rows", "sort_rows", "sort_real", "sort_cplx", "sort_rejected", "sor
             "trans", "checkpoints", "seeds", "draws", "nevadj_rows", "nevadj_gen", "nevadj_herm", "nevadj_double", "nevadj_mismatch",
             "walk_steps_hi", "sort_len0", "sort_len1", "sort_vectors"}
 Bump(c, key, by) == [c EXCEPT ![key] = @ + by]
-Hit(rule) == [r |-> rule, run |-> 1, l |-> l]
+\* run = ordinal of the Reset line (descriptor) this row belongs to; computed only when a hit is recorded
+RunOf(k) == Cardinality({i \in 1 .. k : Tr[i].e = "Reset"})
+Hit(rule) == [r |-> rule, run |-> RunOf(l), l |-> l]
 AddHits(m, new) == IF Cardinality(m) > 200 THEN m ELSE m \cup new
 If(c, rule) == IF c THEN {} ELSE {Hit(rule)}
 
